@@ -52,6 +52,9 @@ type Ctx struct {
 	Seed     int
 	Start    time.Time
 	VerifDir string
+	// EvidenceDir overrides <VerifDir>/evidence (used by the mutant audit so that concurrent runs
+	// do not overwrite the property's own evidence).
+	EvidenceDir string
 
 	Obls       []Obligation
 	Findings   []Finding
@@ -226,6 +229,9 @@ func (c *Ctx) Finish() int {
 		}
 	}
 	evDir := filepath.Join(c.VerifDir, "evidence")
+	if c.EvidenceDir != "" {
+		evDir = c.EvidenceDir
+	}
 	os.MkdirAll(evDir, 0o755)
 	replay := filepath.Join(evDir, c.ID+".replay.json")
 	if len(unknown) > 0 {
